@@ -287,7 +287,8 @@ class Executor:
         if await self._discard_check_if_declared_again(step):
             return
         async with self.db:
-            step.set_state(StepState.PENDING, step.has_unavailable_dynamic_input())
+            if not self._drop_verdict_if_declared_again(step):
+                step.set_state(StepState.PENDING, step.has_unavailable_dynamic_input())
         self._report_step_counts()
 
     async def try_skip_job(
@@ -333,6 +334,9 @@ class Executor:
         # All checks passed: no need to run the step, just simulate the products.
         await self._skip(run, step_hash)
         async with self.db:
+            if self._drop_verdict_if_declared_again(step):
+                self._report_step_counts()
+                return
             # If output hashes changed fortuitously,
             # e.g. the user restored them to the expected state,
             # we still want to record the new hash.
@@ -386,6 +390,13 @@ class Executor:
         unexpected_input_changes = len(new_inp_hashes) > 0
 
         async with self.db:
+            if self._drop_verdict_if_declared_again(step):
+                # Declared again while the hashes were computed: what the command wrote is
+                # recorded as after a failure, the verdict is dropped.
+                self.workflow.update_file_hashes(new_out_hashes, cause=HashUpdateCause.FAILED)
+                self.scheduler.record_run_stopped(step.i, succeeded=False)
+                self._report_step_counts()
+                return
             new_hash, wants_defer = self._classify_execution(
                 run, new_hash, new_inp_hashes, unexpected_input_changes
             )
@@ -878,6 +889,26 @@ class Executor:
     #
     # Command execution helper
     #
+
+    def _drop_verdict_if_declared_again(self, step: Step) -> bool:
+        """Make a step pending, instead of applying a verdict, when it was declared anew meanwhile.
+
+        To be called inside the transaction that is about to apply the verdict of a job,
+        so that no declaration can arrive between the question and the verdict:
+        between the end of a command, or the start of a check, and that transaction
+        hashes are computed in a thread, and the creator of the step can run again.
+
+        Returns
+        -------
+        dropped
+            Whether the step was declared again: it has been made pending without a hash.
+        """
+        if step.i not in self.workflow.declared_again:
+            return False
+        self.workflow.declared_again.discard(step.i)
+        step.delete_hash()
+        step.set_state(StepState.PENDING)
+        return True
 
     async def _discard_check_if_declared_again(self, step: Step) -> bool:
         """Drop the result of a hash check when the step was declared anew while it was checked.
